@@ -64,6 +64,7 @@ def gen(tier, rng, scale):
         n = rng.range(5, 200 if not quick else 80)
         items = []
         starts = []
+        conts = []
         for j in range(n):
             r = rng.below(100)
             if r < 45:
@@ -73,7 +74,17 @@ def gen(tier, rng, scale):
                     s, e = rng.choice([(s0, e0), (e0, e0 + 1 + rng.below(5)), (s0, s0 + 1), (max(0, s0 - 3), s0)])
                     if s >= e:
                         e = s + 1
+                elif conts and rng.chance(1, 4):
+                    # the next piece of the same library: it starts where an earlier mapping ends, with the relative address that continues
+                    # it (segments of one file mapped one after the other, JIT code emitted back to back) - or the piece just before it
+                    s0, e0, rel0, v0 = rng.choice(conts)
+                    ln = 1 + rng.below(6)
+                    if rng.chance(3, 4) or s0 < ln or rel0 < ln:
+                        s, e, rel, v = e0, e0 + ln, rel0 + (e0 - s0), v0
+                    else:
+                        s, e, rel, v = s0 - ln, s0, rel0 - ln, v0
                 starts.append((s, e))
+                conts.append((s, e, rel, v))
                 op = [rng.choice(["A", "A", "A", "KA"]), s, e, rel, v]
                 if rng.chance(1, 4):
                     # the same address asked for immediately before and immediately after the operation, nothing else in between
